@@ -135,6 +135,20 @@ def run(ctx, rep):
         if sorted(log5) != ["first", "nested", "second"]:
             bad3.append("a callback registered from inside a running callback: invocations %s (each of first/second/nested must run "
                         "exactly once)" % log5)
+        # (f) a registration that races with the delivery: another thread has read "not ready" in add_callback and appends its
+        #     callback while the delivering thread is inside an earlier callback - the live list must still be the one iterated
+        state, ttl, extra = fresh_result()
+        log6 = []
+        lists = [k for k, v in state.items() if isinstance(v, list)]
+        if len(lists) == 1:
+            def racing(r):
+                log6.append("early")
+                state[lists[0]].append(lambda r2: log6.append("racing"))
+            add_cb(state, extra, racing)
+            deliver(state, extra, False, "V")
+            if log6 != ["early", "racing"]:
+                bad3.append("a callback appended by a concurrent add_callback() (which saw 'not ready') while the reply is being "
+                            "delivered is never invoked: invocations %s" % log6)
     except MI.Raised as r_:
         bad1.append("delivery raises %s" % r_.name)
     except RecursionError:
